@@ -40,7 +40,7 @@ RULE = ("case = one configuration: (tri|quad|est: dimension n, order, re-orthogo
         "Radau / number of deflated eigenvectors / probe set / micro-batch size / eager-jit / dtype) and inside the case "
         "EVERY matrix of the alphabet (spectra lin/geo/degenerate-top/pairs/const/fill x bases eye/rot/block/ones/"
         "hadamard) x EVERY probe (e_i, e_i+-e_j, all 2^n sign patterns); (elbo: model with all numbers written out x "
-        "flavour x space x method x jit x resume split x analytic prior x posterior kind). non-trivial = the library "
+        "flavour x space x method x jit x resume split x n_batches 10/1/2/3 x analytic prior x posterior kind). non-trivial = the library "
         "routine ran and at least one probe / value was decided against the reference (for quad/est: exactness at "
         "order >= Krylov dimension or the Gauss rule below it)")
 ASSUMPTIONS = [
@@ -123,6 +123,22 @@ def cases(tier, seed):
                           k=nrel, nbatches=10, slqopt="default"))
             c.update(kw)
             el.append(c)
+        def sched(nbs):
+            # resume x batch schedule: every split k with n_batches in nbs (for n_rel >= 4 and n_batches 2/3 some splits
+            # lie strictly inside a batch that is not the last one), JAX signal/data and classic
+            for nb, k, (fl_, sp_) in itertools.product(nbs, range(1, nrel + 1),
+                                                       (("re", "signal"), ("re", "data"), ("cl", "signal"))):
+                add(flavour=fl_, space=sp_, mode="resume-all", k=k, nbatches=nb)
+                if k == 1:
+                    add(flavour=fl_, space=sp_, mode="resume-neig", k=k, nbatches=nb)
+        if spec.get("sched"):
+            add()
+            add(space="data")
+            add(flavour="cl")
+            sched((2, 3))
+            continue
+        if nrel >= 3 and not quick and spec["noise"] == 1.0:
+            sched((2, 3))
         # JAX, all eigenvalues, option product
         for space, mjit, analytic, mode in itertools.product(("signal", "data", "auto"), (True, False), (False, True),
                                                               ("all", "neig")):
@@ -734,7 +750,7 @@ def run_elbo(case):
         b = check_full(es, stt, "resumed at split %d of %d (%s)" % (k, nrel, mode))
         if b:
             return b
-        outcome += "|split=%s" % ("end" if k == nrel else k) + ("|nb=1" if case["nbatches"] == 1 else "")
+        outcome += "|split=%s" % ("end" if k == nrel else k) + ("|nb=%d" % case["nbatches"] if case["nbatches"] != 10 else "")
         return ok(nontrivial=True, outcome=outcome, stats=st, value=stt["elbo_mean"], group=_group(case), detail=det)
     # ---- SLQ remainder: k exact eigenvalues, every sign pattern served ------------------------
     if mode == "slq":
